@@ -223,9 +223,17 @@ class Anchors:
         self._set('delete-walk', self._unique(dw, 'delete_bucket'), 'InnerBucket method that frees pages it finds through the map view')
         sr = [f for f in F.fns if f.kind != 'Closure' and f.locals[0]['ty'].startswith('(bool, std::vec::Vec<') and 'SearchPath' in f.locals[0]['ty']]
         self._set('search-role', sr[0] if len(sr) == 1 else None, 'function returning (exact-match flag, descent stack)')
-        self._set('resize-role', self._unique([f for f in self._methods_of('DBInner') if any(
-            c and strip_generics(c['path']).endswith('FileExt::allocate') for _, _, _, c in F.call_sites(f))], 'resize'),
-            'DBInner method calling FileExt::allocate')
+        # the resize role: the DBInner method that grows the file (FileExt::allocate / File::set_len, itself or through private free helpers such as `set_file_size`)
+        # and is reached from the commit; when several qualify (`ensure_capacity` calling `resize`), the innermost one that holds the primitive
+        def grows(f, direct_only=False):
+            fs = [f] if direct_only else [g for g in F.reachable_fns([f]) if g is f or (g.kind == 'Fn' and not g.eff_pub)]
+            return any(c and (strip_generics(c['path']).endswith('FileExt::allocate') or strip_generics(c['path']) == 'std::fs::File::set_len')
+                       for g in fs for _, _, _, c in F.call_sites(g))
+        cmf = self.roles.get('Tx::commit')
+        from_commit = set(F.reachable_fns([cmf])) if cmf else set()
+        rzc = [f for f in self._methods_of('DBInner') if f in from_commit and grows(f)]
+        inner = [f for f in rzc if not any(g is not f and g in rzc for g in cg.get(f, ()))]
+        self._set('resize-role', self._unique(inner or rzc, 'resize'), 'DBInner method reached from the commit that grows the file')
 
 
 def _tree_str(t):
